@@ -7,7 +7,7 @@ EXTENDS GridCodes, TLC, Json
 
 CONSTANTS NB,        \* geohash lattice: unit 360/2^NB degrees
           Stride,    \* sweep stride for the long axes (1 = every lattice point)
-          Part,      \* which family of vectors: "gh", "gars", "georef", "osgb", "dec"
+          Part,      \* which family of vectors: "gh", "gars", "georef", "osgb", "dec", "sub"
           NChunks    \* parallelism: vectors are successors of NChunks chunk states
 
 VARIABLE v
@@ -86,7 +86,9 @@ GHSmall ==
   \cup {Rep(gh(i), n) : i \in {1, 2, 16, 17, 32}, n \in {4, 5, 11, 17, 18, 19, 25}}
   \cup {<<gh(7)>> \o Rep(gh(i), 17) \o <<c>> : i \in {1, 32}, c \in Bad \cup {gh(3)}}
   \cup {<<105, 110, 118>>, <<73, 78, 86>>, <<105, 78, 118, 97, 108, 105, 100>>, <<110, 97, 110>>, <<78, 65, 78>>,
-        <<110, 65, 110, 48>>, <<105, 110>>, <<110, 97>>, <<110, 110, 97>>, <<118, 110, 105>>, <<105, 110, 119>>}
+        <<110, 65, 110, 48>>, <<105, 110>>, <<110, 97>>, <<110, 110, 97>>, <<118, 110, 105>>, <<105, 110, 119>>,
+        \* look-alikes of the "nan" marker: "nax" "NA7" "nab12" "naz" "nbn" "xan" (only "nan..." may decode to NaN)
+        <<110, 97, 120>>, <<78, 65, 55>>, <<110, 97, 98, 49, 50>>, <<110, 97, 122>>, <<110, 98, 110>>, <<120, 97, 110>>}
 DecGH(C) ==
   \/ \E i \in Ch(I32, C) : Out("geohash", <<gh(i)>>)
   \/ \E i \in Ch(I32, C), j \in I32 : Out("geohash", <<gh(i), gh(j)>>)
@@ -117,11 +119,17 @@ GeorefTails ==
           g \in {<<dg(0)>>, <<dg(9)>>, <<dg(4), dg(5), dg(6)>>, Rep(dg(9), 9), Rep(dg(0), 9), <<dg(0)>> \o Rep(dg(9), 8)}}
   \cup {Rep(dg(3), n) : n \in 1..26}
   \cup {<<dg(1), dg(2), c, dg(4)>> : c \in Bad}
+  \* a non-digit at EVERY position of a 4- and a 6-digit tail
+  \cup {[t EXCEPT ![i] = c] : t \in {<<dg(1), dg(2), dg(3), dg(4)>>}, i \in 1..4, c \in Bad}
+  \cup {[t EXCEPT ![i] = c] : t \in {<<dg(1), dg(2), dg(3), dg(4), dg(5), dg(6)>>}, i \in 1..6, c \in Bad}
 GeorefSmall ==
   {<<c, l24(3)>> : c \in Bad} \cup {<<l24(3), c>> : c \in Bad}
   \cup {<<l24(3), l24(3), c, l24(3)>> : c \in Bad} \cup {<<l24(3), l24(3), l24(3), c>> : c \in Bad}
   \cup {<<l24(3), l24(3), l24(3)>>, <<l24(3)>>, <<>>, <<73, 78, 86>>, <<105, 110, 118, 97>>, <<73, 78>>}
   \cup {<<l24(3), l24(3), l24(3), l24(3), c>> : c \in Bad \cup {dg(5)}}
+  \* look-alikes of the "INV" marker: "INW" "INX" "INGH" "inwa" "IN0" "INAH15" "INWARD" "IMV" "JNV"
+  \cup {<<73, 78, 87>>, <<73, 78, 88>>, <<73, 78, 71, 72>>, <<105, 110, 119, 97>>, <<73, 78, 48>>,
+        <<73, 78, 65, 72, 49, 53>>, <<73, 78, 87, 65, 82, 68>>, <<73, 77, 86>>, <<74, 78, 86>>}
 DecGeoref(C) ==
   \/ \E i \in Ch(1..24, C), j \in 1..24 : Out("georef", <<l24(i), l24(j)>>)
   \/ \E a \in Ch(1..16, C), i \in {1, 13, 24}, j \in {1, 12}, b \in 1..16 : Out("georef", <<l24(i), l24(j), l24(a), l24(b)>>)
@@ -134,6 +142,9 @@ OSGBTails ==
   \cup {<<dg(1), dg(2), dg(3), dg(4), dg(5), dg(6), dg(7), dg(8)>>, <<dg(1), dg(2), dg(3)>>,
         [i \in 1..22 |-> dg(i % 10)], [i \in 1..14 |-> dg((3 * i) % 10)]}
   \cup {<<dg(1), c>> : c \in Bad} \cup {<<32, dg(1), dg(2), 32, 32, dg(3), dg(4)>>, <<dg(1), 9, dg(2)>>}
+  \* a non-digit in the easting half as well as in the northing half, every position of a 2- and a 4-digit tail
+  \cup {<<c, dg(1)>> : c \in Bad}
+  \cup {[t EXCEPT ![i] = c] : t \in {<<dg(1), dg(2), dg(3), dg(4)>>}, i \in 1..4, c \in Bad}
 OSGBSmall ==
   {<<c, L25[3]>> : c \in Bad} \cup {<<L25[3], c>> : c \in Bad}
   \cup {<<>>, <<L25[3]>>, <<73, 78>>, <<105, 110>>, <<73, 78, 86, 65, 76, 73, 68>>, <<73>>, <<32, 83, 85>>, <<83, 32, 85, 32>>}
@@ -142,6 +153,60 @@ DecOSGB(C) ==
   \/ C = 7 /\ \E i \in {1, 19, 25}, j \in {1, 20, 25}, t \in OSGBTails : Out("osgb", <<L25[i], L25[j]>> \o t)
   \/ C = 8 /\ \E t \in OSGBTails : Out("osgb", LowerS(<<L25[19], L25[20]>> \o t))
   \/ C = 9 /\ \E c \in OSGBSmall : Out("osgb", c)
+
+(* ------------------------- single-byte substitutions -------------------- *)
+(* Part "sub": every single-byte substitution (position x Sub) of one valid    *)
+(* code per scheme and code length, and of the NaN markers.  Sub holds the Bad  *)
+(* bytes and symbols of the other character classes (digits, letters inside    *)
+(* and outside the alphabets, both cases), so that a validity test that is      *)
+(* skipped, shifted by one position or applied to the wrong half of a code is   *)
+(* exposed at the position it skips; a substitution that yields another valid   *)
+(* code is a control.  GridCodes!Dec decides what each string must do.          *)
+Sub == Bad \cup {63, 48, 53, 57, 71, 78, 81, 86, 90, 110, 118, 120, 122}    \* ? 0 5 9 G N Q V Z n v x z
+NGFJ == <<l24(13), l24(7), l24(6), l24(9)>>
+SU == <<83, 85>>
+SubBases == <<
+  <<"geohash", <<gh(9)>>  >>,
+  <<"geohash", <<gh(9), gh(20)>>  >>,
+  <<"geohash", <<gh(9), gh(20), gh(4)>>  >>,
+  <<"geohash", <<gh(21), gh(11), gh(32), gh(1), gh(17)>>  >>,
+  <<"geohash", [i \in 1..12 |-> gh(((7 * i) % 32) + 1)]  >>,
+  <<"geohash", [i \in 1..18 |-> GHAlpha[((5 * i) % 32) + 1]]  >>,
+  <<"geohash", [i \in 1..19 |-> gh(((11 * i) % 32) + 1)]  >>,
+  <<"geohash", <<105, 110, 118>>  >>,                          \* inv
+  <<"geohash", <<73, 78, 86>>  >>,                             \* INV
+  <<"geohash", <<110, 97, 110>>  >>,                           \* nan
+  <<"geohash", <<78, 65, 78>>  >>,                             \* NAN
+  <<"geohash", <<105, 110, 118, 97, 108, 105, 100>>  >>,       \* invalid
+  <<"geohash", <<110, 97, 110, 49, 50>>  >>,                   \* nan12
+  <<"gars", DigitSeq(361, 3) \o <<l24(8), l24(13)>>  >>,
+  <<"gars", DigitSeq(361, 3) \o <<l24(8), l24(13), dg(3)>>  >>,
+  <<"gars", DigitSeq(361, 3) \o <<l24(8), l24(13), dg(3), dg(7)>>  >>,
+  <<"gars", LowerS(DigitSeq(7, 3) \o <<l24(1), l24(24), dg(1), dg(9)>>)  >>,
+  <<"gars", <<73, 78, 86>>  >>,
+  <<"gars", <<105, 110, 118, 97, 108>>  >>,                    \* inval
+  <<"gars", <<73, 78, 86, 65, 76, 73, 68>>  >>,                \* INVALID
+  <<"georef", <<l24(13), l24(7)>>  >>,
+  <<"georef", NGFJ  >>,
+  <<"georef", NGFJ \o <<dg(1), dg(2), dg(3), dg(4)>>  >>,
+  <<"georef", NGFJ \o <<dg(1), dg(2), dg(3), dg(4), dg(5), dg(6)>>  >>,
+  <<"georef", LowerS(NGFJ) \o <<dg(0), dg(8), dg(5), dg(9)>>  >>,
+  <<"georef", NGFJ \o <<dg(1), dg(2), dg(3), dg(4), dg(5), dg(6), dg(7), dg(8), dg(9), dg(0), dg(1)>>
+                   \o <<dg(5), dg(9)>> \o Rep(dg(0), 8) \o <<dg(9)>>  >>,
+  <<"georef", <<73, 78, 86>>  >>,
+  <<"georef", <<105, 110, 118>>  >>,
+  <<"georef", <<73, 78, 86, 65, 76, 73, 68>>  >>,
+  <<"osgb", SU  >>,
+  <<"osgb", SU \o <<dg(1), dg(2)>>  >>,
+  <<"osgb", SU \o <<dg(1), dg(2), dg(3), dg(4)>>  >>,
+  <<"osgb", LowerS(SU) \o <<dg(1), dg(2), dg(3), dg(4), dg(5), dg(6)>>  >>,
+  <<"osgb", SU \o [i \in 1..22 |-> dg((7 * i) % 10)]  >>,
+  <<"osgb", <<73, 78>>  >>,
+  <<"osgb", <<105, 110>>  >>,
+  <<"osgb", <<73, 78, 86, 65, 76, 73, 68>>  >> >>
+DecSub(C) ==
+  \E k \in Ch(1..Len(SubBases), C) :
+    \E i \in 1..Len(SubBases[k][2]), c \in Sub : Out(SubBases[k][1], [SubBases[k][2] EXCEPT ![i] = c])
 
 Init == v = <<"root">>
 Next ==
@@ -152,6 +217,7 @@ Next ==
           [] Part = "georef" -> VecGeoref(v[2])
           [] Part = "osgb" -> VecOSGB(v[2])
           [] Part = "dec" -> DecGH(v[2]) \/ DecGARS(v[2]) \/ DecGeoref(v[2]) \/ DecOSGB(v[2])
+          [] Part = "sub" -> DecSub(v[2])
 
 (* ------------------------------ model invariants ------------------------- *)
 EffPrec(s, p) ==
